@@ -9,7 +9,7 @@ TECHNIQUE = "who-may-call rule over resolved std::fs mutators + dominance of val
 EXPLANATION = (
     "Every call of a file-system mutator (fs::write, remove_file, remove_dir_all, create_dir_all, rename, copy, "
     "File::create, OpenOptions) in the compiler crates is located from the resolved callees in MIR and must lie in "
-    "apply_file_system_operations (one reviewed exception: create_config creates empty directories while the "
+    "apply_file_system_operations or a private helper that only it calls (one reviewed exception: create_config creates empty directories while the "
     "configuration is loaded). In compile(), planning and applying file operations are dominated by the success "
     "continuation of get_artifact_path_and_content, and inside that function artifact generation is dominated by "
     "the success continuation of validate_entire_schema; the applier is called from compile() only. Together: no "
@@ -28,10 +28,13 @@ def run(cx):
     fb = cx.mir(*COMPILER_CRATES)
     sites = fs_mutation_sites(fb)
     cx.floor("R17.owner file-system mutation call sites", len(sites), 5)
+    applier = fb.one(r"isograph_compiler::write_artifacts::apply_file_system_operations$")
+    cone = owner_cone(fb, [applier.id], crates={"isograph_compiler"})
+    cx.extra["applier_cone"] = sorted(cone)
     for t in sites:
         f = t.fn
         owner = f.root or f.id
-        ok = owner.endswith("write_artifacts::apply_file_system_operations") or owner in REVIEWED
+        ok = owner in cone or owner in REVIEWED
         cx.ob("R17.owner", "%s|%s" % (owner, (t.callee or t.declared).split("::")[-1]), ok,
               "the file system is mutated outside apply_file_system_operations: a compile that later fails (or "
               "never validated) has already touched the artifact directory", f.loc(t.line),
